@@ -1,11 +1,12 @@
 (** C08 -- Compiled gridded layouts realise exactly their tracks, cuts, vias and nets.
     Property theorems only; proofs are in Tetris/Compile_proofs.v.
     Model: Tetris/Stack.v, Tracks.v, Compile.v ([orig] = the code at the pinned commit, [fixed] = with
-    the repairs of /verif/work/c08/fix-*.patch).  Specification: Tetris/CompileSpec.v
+    the six repairs of /verif/work/c08/fix-*.patch, the sixth -- fix-stack-raw-layers, 2026-10-02 -- being the
+    check in `export_stack` that every metal and via layer has a raw layer; [fixed5] = the first five only).  Specification: Tetris/CompileSpec.v
     (track_pos, tiles, centred, blocks, via_okb, nets_okb), evaluated by Tetris/CompileCheck.v.
 
     What is proved: the per-track theorems (1)-(5), the track-position theorems (6)-(7), the
-    per-track realisation (8), the absence of panics (10), and -- proofs in
+    per-track realisation (8), the absence of panics on ANY stack (10)-(10c), and -- proofs in
     Tetris/CompileFull_proofs.v -- the composition over the layers, periods and tracks of a cell:
     vias and centres (11), per-period selection (12)-(13), per-layer tiling (14)-(15), nets (16)-(17)
     and the whole cell (19)-(21).  The whole-cell statement [C08_full] AS FIRST WRITTEN is refuted by a
@@ -143,12 +144,62 @@ Definition C08_full : Prop :=
     compile fixed st cells = Ok out ->
     Forall2 (fun c shapes => wf_cellb st c = true -> spec_cell st c shapes = []) cells out.
 
-(** (10) NO PANIC.  For the repaired code every failure is an Err: on any stack whose metal and
-    via layers all have a raw layer, and any cells whose outline sizes and track numbers are
-    non-negative (which `usize` and `Outline` guarantee in Rust), compile never panics. *)
+(** (10) NO PANIC, ON ANY STACK.  For the repaired code every failure is an Err: on ANY stack -- also one that
+    validation rejects, and one whose metal or via layers lack a raw layer (`raw: None`): since
+    fix-stack-raw-layers `export_stack` reports that as an Err before anything is drawn -- and any cells whose
+    outline sizes and track numbers are non-negative (which `usize` and `Outline` guarantee in Rust), compile
+    never panics.  (Strengthened 2026-10-02: the hypothesis [stack_drawable st] is no longer needed.) *)
+Theorem C08_no_panic_any_stack :
+  forall st cells c, Forall cell_nonneg cells -> compile fixed st cells <> Panic c.
+Proof. exact compile_fixed_no_panic_any. Qed.
+
+(** (10a) the statement as it stood before fix-stack-raw-layers -- a corollary of (10) *)
 Theorem C08_no_panic :
   forall st cells c, stack_drawable st -> Forall cell_nonneg cells -> compile fixed st cells <> Panic c.
-Proof. exact compile_fixed_no_panic. Qed.
+Proof. intros st cells c _. apply C08_no_panic_any_stack. Qed.
+
+(** (10b) the tree with the five earlier repairs only ([fixed5]: all flags but [fx_raw]; /repo as it stood on
+    2026-10-01): there [stack_drawable] -- every metal and via layer has a raw layer -- is exactly the
+    hypothesis that is needed, see (10c). *)
+Theorem C08_no_panic_before_raw_fix :
+  forall st cells c, stack_drawable st -> Forall cell_nonneg cells -> compile fixed5 st cells <> Panic c.
+Proof. exact compile_fixed5_no_panic. Qed.
+
+(** (10c) A STACK LAYER WITHOUT A RAW LAYER (closed witnesses, replayed on the real code by the family
+    `stack_no_raw_layer` of tools/props/c08.py).  Metal 0 of the stack has `raw: None`, one empty 1x1 cell of one
+    metal: `.raw.unwrap()` in export_track panics at the pinned commit and with the five earlier repairs; the
+    repaired export_stack reports an Err.  Likewise a via layer without raw layer and one assignment.  A raw-less
+    layer the cell never draws on went unnoticed before the repair (Ok) and is an Err after it; on the complete
+    stack the repair changes nothing. *)
+Theorem C08_orig_no_raw_layer_panics :
+  (compile orig st_noraw_metal0 cells_plain = Panic 540 /\ compile fixed5 st_noraw_metal0 cells_plain = Panic 540 /\
+   compile fixed st_noraw_metal0 cells_plain = Err 562) /\
+  (compile orig st_noraw_via0 cells_one_via = Panic 541 /\ compile fixed5 st_noraw_via0 cells_one_via = Panic 541 /\
+   compile fixed st_noraw_via0 cells_one_via = Err 563) /\
+  ((exists out, compile fixed5 st_noraw_metal3 cells_plain = Ok out) /\ compile fixed st_noraw_metal3 cells_plain = Err 562 /\
+   (exists out, compile fixed5 st_noraw_via0 cells_plain = Ok out) /\ compile fixed st_noraw_via0 cells_plain = Err 563 /\
+   compile fixed st_noflip cells_one_via = compile fixed5 st_noflip cells_one_via /\
+   exists out, compile fixed st_noflip cells_one_via = Ok out).
+Proof. exact orig_no_raw_layer_panics. Qed.
+
+(** the witness stacks are st_noflip (four metals, three vias, all drawn) with ONE raw layer removed; they are
+    outside [wf_stackb] (the tiling / net clauses do not judge them) but inside the no-panic clause, which
+    quantifies over every stack *)
+Example C08_no_raw_layer_witness_shape :
+  s_metals st_noraw_metal0 <> [] /\ map m_raw (s_metals st_noraw_metal0) = [None; Some 11020; Some 12020; Some 13020] /\
+  map v_raw (s_vias st_noraw_via0) = [None; Some 11044; Some 12044] /\
+  ~ stack_drawable st_noraw_metal0 /\ ~ stack_drawable st_noraw_via0 /\ stack_drawable st_noflip /\
+  wf_stackb st_noraw_metal0 = false /\ wf_stackb st_noraw_via0 = false /\ wf_stackb st_noflip = true /\
+  Forall cell_nonneg cells_plain /\ Forall cell_nonneg cells_one_via.
+Proof.
+  repeat split; try (vm_compute; reflexivity); try (vm_compute; discriminate).
+  - intros [H _]. inversion H as [|? ? H0 _]. apply H0. reflexivity.
+  - intros [_ H]. inversion H as [|? ? H0 _]. apply H0. reflexivity.
+  - repeat constructor; discriminate.
+  - repeat constructor; discriminate.
+  - repeat constructor; vm_compute; discriminate.
+  - repeat constructor; vm_compute; discriminate.
+Qed.
 
 (** The code BEFORE the repairs violates the property; closed witnesses, replayed on the real
     code by the directed cases of tools/props/c08.py. *)
@@ -205,7 +256,10 @@ Print Assumptions C08_nets_phase.
 Print Assumptions C08_track_pos.
 Print Assumptions C08_center_span_repaired.
 Print Assumptions C08_track_realised_partial.
+Print Assumptions C08_no_panic_any_stack.
 Print Assumptions C08_no_panic.
+Print Assumptions C08_no_panic_before_raw_fix.
+Print Assumptions C08_orig_no_raw_layer_panics.
 Print Assumptions C08_orig_flip_refuted.
 Print Assumptions C08_orig_reflect_refuted.
 Print Assumptions C08_orig_underflow_panics.
